@@ -30,8 +30,8 @@ CLAIMED = {
             "Trusted: Lean kernel, harness; sharing in the Rust Vec representation is excluded by the tie and by C02, not by the pure model.",
             "DESIGN.md §5 C05"),
     "C06": (T_PROOF + ": progress theorem over the evaluator model with explicit panic outcomes; generated panic-site list must be covered; exhaustive sink × type × route product in the tie",
-            "Accepted programs never reach a panic outcome of the evaluator model (Props/C06Accepted: all nine residual sites discharged from the lexer, parser and resolver models, for source text through the pipeline model; explicit hypotheses: the plan keeps called functions — C03's subject — and the number type parses digit lexemes); the model's panic sites are checked against a list regenerated from runtime.rs/builtins; the finite product of operator/condition/index/method sinks × runtime types × dynamic routes is executed completely on the real runtime each run.",
-            "Trusted: Lean kernel, extractor of panic sites, harness worker isolation.",
+            "Accepted programs never reach a panic outcome of the evaluator model (Props/C06Accepted: all nine residual sites discharged from the lexer, parser and resolver models, for source text through the pipeline model; the plan hypothesis is call-graph reachability (PlanReach), proved for the analysis model's own plan under decidable plan-free conditions on the facts (analysis_plan_reach, c06_pipeline_reach) and evaluated by the driver on the real plan and annotations of every accepted program; remaining explicit hypotheses: those facts conditions for the resolver's output and that the number type parses digit lexemes); the model's panic sites are checked against a list regenerated from runtime.rs/builtins; the finite product of operator/condition/index/method sinks × runtime types × dynamic routes is executed completely on the real runtime each run.",
+            "Trusted: Lean kernel, extractor of panic sites, harness worker isolation; FactsCoverCalls (facts cover the call annotations, reachable set closed) is evaluated per program, not yet proved for every resolver output.",
             "DESIGN.md §5 C06"),
     "C07": (T_PROOF + ": lexer/parser totality (fuel adequacy) and span theorems (ordered, in range, on character boundaries) over the front-end models; correspondence on arbitrary UTF-8, truncations and token mutations",
             "For every UTF-8 text the lexer and parser models terminate, all token/AST/diagnostic/label spans are ordered, in range and on character boundaries; models tied to scanner.rs/parser.rs/resolver.rs by differential runs incl. renderer survival, with worker isolation for aborts.",
@@ -77,9 +77,9 @@ CLAIMED = {
             "Theorem over all texts, all chunkings and all call counts for the model of read_line; the real function is driven through a real pipe with controlled chunk boundaries and compared with the model.",
             "Trusted: Lean kernel, harness; read(2) returns a non-empty prefix of the available bytes (assumed).",
             "DESIGN.md §5 C17"),
-    "C18": (T_PROOF + ": staged limit check exact at every boundary, first-exceeded-in-stage-order, limit ⇒ no plan and one warning, empty plan ⇒ same run; generated caps table + programs sized around each default cap",
-            "Theorems about the limits model (exactness, stage order, pipeline decision) and run equivalence under an absent plan; counts and decisions compared with the real analysis on random programs with small caps and on generated programs just below/at/above every default cap.",
-            "Trusted: Lean kernel, extractor of DEFAULT_CAPS, harness.",
+    "C18": (T_PROOF + ": staged limit check exact at every boundary, first-exceeded-in-stage-order, limit ⇒ no plan and one warning, empty plan ⇒ same run; summary-event budget proved sufficient below the preflight limits for every call graph, component list and fuel (potential-function argument), equal-share design refuted; generated caps table + programs sized around each default cap; the real summary fixpoint against its model with budgets from the bound down to 0",
+            "Theorems about the limits model (exactness, stage order, pipeline decision) and run equivalence under an absent plan; counts and decisions compared with the real analysis on random programs with small caps and on generated programs just below/at/above every default cap; the summary fixpoint (events, single global budget, Kosaraju scheduling) modelled and compared with the real one per function; large call-graph components below the limits against ring-of-3 twins; statement-heavy and binding-sensitive programs around the statement limit through the shipped binary.",
+            "Trusted: Lean kernel, extractor of DEFAULT_CAPS, harness; the scheduling order of components is checked by correspondence, not proved (the budget theorems hold for every order); memory is finite: about 1 M statements exhaust the shipped binary's scratch arenas (D-20).",
             "DESIGN.md §5 C18"),
 }
 
